@@ -250,15 +250,10 @@ func (h *histGen) history() {
 			h.count["op:"+word]++
 		}
 		one := func(word string) { call(word, p()) }
-		// KF-C03-1: Copy*(x, x) through a write-back cache that buffers x never returns; not generated
+		// (Copy*(x, x) through a write-back cache used not to return — KF-C03-1 / KF-C06-7, repaired: the cache
+		// refuses overlapping arguments; such calls are generated like any other, witness in corpus/C03)
 		two := func(word string) {
 			a, b := h.path(hd.inside), h.path(hd.inside)
-			for k := 0; st.cache && k < 20 && sameTarget(a, b); k++ {
-				b = h.path(hd.inside)
-				if k == 19 {
-					b = "fresh"
-				}
-			}
 			call(word, hp(a), hp(b))
 		}
 		switch x := h.r.Intn(100); {
